@@ -400,3 +400,41 @@ func (v *Val) Permute(pick func(n int) []int) *Val {
 	}
 	return v
 }
+
+// Conform rewrites v so that every component is written in the field order
+// its container declares (what Go host data can express: one struct type per
+// position). want is the declared type at this position (nil: v's own).
+func (v *Val) Conform(want *Type) *Val {
+	if want == nil {
+		want = v.T
+	}
+	switch v.T.K {
+	case TNum, TStr, TBool, TTime, TFun:
+		return v
+	case TList:
+		n := &Val{T: want}
+		for _, e := range v.L {
+			n.L = append(n.L, e.Conform(want.El()))
+		}
+		return n
+	case TMap:
+		n := &Val{T: want}
+		for _, e := range v.M {
+			n.M = append(n.M, Entry{e.K, e.V.Conform(want.Val())})
+		}
+		return n
+	case TMaybe:
+		n := &Val{T: want}
+		if v.P != nil {
+			n.P = v.P.Conform(want.El())
+		}
+		return n
+	case TObj:
+		n := &Val{T: want}
+		for _, f := range want.F {
+			n.L = append(n.L, v.Field(f.Name).Conform(f.T))
+		}
+		return n
+	}
+	return v
+}
